@@ -72,3 +72,12 @@ func (fg *FnGen) defsOrNil() map[string]*FunDef {
 	}
 	return fg.defs
 }
+
+func allValueOnly(ts []types.Type) bool {
+	for _, t := range ts {
+		if t == nil || !valueOnly(t, 0) {
+			return false
+		}
+	}
+	return true
+}
